@@ -41,19 +41,32 @@ def execute(P, cases, ctx, tag="main", run_model=True):
             mdrv = P.model_driver_of(drv) if hasattr(P, "model_driver_of") else drv
             m = {}
             if run_model:
-                _, m, e2 = run_sharded(mdrv, aug, ctx.drv, os.path.join(rundir, "m%d" % gi),
+                # other schedules of the same case the model is asked for as well (real processes schedule themselves)
+                variants = {}
+                if hasattr(P, "model_variants"):
+                    for c in aug:
+                        variants[c[0]] = P.model_variants(c, drv)
+                extra = [v for vs in variants.values() for v in vs]
+                _, m, e2 = run_sharded(mdrv, aug + extra, ctx.drv, os.path.join(rundir, "m%d" % gi),
                                        run_model=True, run_impl=False, shards=getattr(P, "SHARDS", None))
                 errs += e2
                 if hasattr(P, "reduce_model"):
                     byid = {c[0]: c for c in cs}
-                    for k in m:
+                    vby = {v[0]: v for v in extra}
+                    for k in list(m):
+                        if k in vby:
+                            m[k]["obs"] = P.reduce_model(vby[k], drv, m[k]["obs"])
+                    for k in list(m):
                         if k in byid:
                             m[k]["obs"] = P.reduce_model(byid[k], drv, m[k]["obs"])
                             if hasattr(P, "reconcile") and k in i:
                                 # nondeterminism of the implementation that no hook controls (real processes): the module
                                 # says which of the model's alternatives the run took
-                                i[k]["obs"], notes = P.reconcile(byid[k], drv, i[k]["obs"], m[k]["obs"])
+                                alts = [m[v[0]]["obs"] for v in variants.get(k, []) if v[0] in m]
+                                i[k]["obs"], notes = P.reconcile(byid[k], drv, i[k]["obs"], m[k]["obs"], alts)
                                 i[k]["aux"] = list(i[k].get("aux", [])) + notes
+                    for k in vby:
+                        m.pop(k, None)
         elif hasattr(P, "augment"):
             # two phases: the implementation runs first; what it observed about its own
             # nondeterminism (HashMap / directory order) is handed to the model as an oracle
@@ -109,6 +122,8 @@ def shrink(P, case, cls, ctx, want_disagree=False, budget=12):
     """greedy one-op-removal delta debugging; a candidate is kept when it still
     shows the same failure class (or still disagrees with the model)"""
     cur = case
+    if hasattr(P, "shrink_budget"):
+        budget = min(budget, P.shrink_budget(case))
     for rnd in range(budget):
         cid, hdr, ops = cur
         if len(ops) <= 1:
